@@ -88,34 +88,120 @@ def run_cases(ctx, cases, mode='nrt'):
 
 
 def signature(case, t, at, why):
+    ev = t['ev'][at - 1]
     if case['kind'] == 'raw':
         where = 'raw:off%s' % ('0' if case['off'] == 0 else '>0')
+    elif case['kind'] == 'reg':
+        sv = case['servers'][ev.get('w', 1) - 1]
+        # input class: the server assigned an id the client's own option would not allow (reported > local)
+        where = 'reg:%s:%s' % (case['what'], 'client>=local' if case['reported'] and sv['client'] >= sv['local'] else 'client<local')
     else:
         where = '%s:client%s' % (case['what'], '0' if case['client'] == 0 else '>0')
-    ev = t['ev'][at - 1]
     return 'alloc:%s:%s:%s' % (where, ev['n'], why)
 
 
-def judge_alloc(ctx, cases, traces):
-    slim = [dict(id=t['id'], part=t['part'], ev=t['ev']) for t in traces]
+def judge_alloc(ctx, runs):
+    """runs: list of (cases, traces); one batch validation.  Single-allocator traces become parts = [part], w = 1"""
+    slim, meta = [], []
+    for cases, traces in runs:
+        for t in traces:
+            parts = t.get('parts') or [dict(t['part'], reported=0)]
+            ev = [dict(e, w=e.get('w', 1)) for e in t['ev']]
+            slim.append(dict(id=len(slim), parts=parts, ev=ev))
+            meta.append((cases[t['case']], t, parts))
     verdicts = ctx.validate('TraceAlloc', 'TraceAlloc.cfg', slim, nproc=8 if len(slim) > 100000 else 4)
     nviol = 0
-    for t in traces:
-        case = cases[t['case']]
+    for i, (case, t, parts) in enumerate(meta):
         if nontrivial(case['hist']):
             ctx.nontrivial([case.get('kind'), case.get('what'), case.get('size'), case.get('pos'), case.get('off'),
-                            case.get('client'), case['hist'], t['choices']])
-        v = verdicts[t['id']]
+                            case.get('client'), case.get('servers'), case.get('reported'), case.get('via'), case['hist'],
+                            t['choices']])
+        v = verdicts[i]
         if v is not None:
             at, why = v
             nviol += 1
             ctx.violation(signature(case, t, at, why),
-                          '%s allocator: %s at step %d of history %s (partition %s): observed %s'
+                          '%s allocator: %s at step %d of history %s (partition(s) %s%s): observed %s'
                           % (case['kind'] if case['kind'] == 'raw' else 'Server/' + case['what'], why, at,
-                             case['hist'], t['part'], t['ev'][:at]),
+                             case['hist'], parts, ', registered via ' + case.get('via', 'handler') if case['kind'] == 'reg' else '',
+                             t['ev'][:at]),
                           dict(kind='alloc', case=case, choices=t['choices'], rejected_at=at, why=why,
-                               observed=t['ev'][:at]))
+                               observed=t['ev'][:at], mode='rt' if case.get('via') == 'reply' else 'nrt'))
     return nviol
+
+
+# ----------------------------------------------------------------------------- registration: reported vs local logins
+def reg_probes(per):
+    """probing histories for two clients w = 1, 2 whose partitions hold `per` addresses each"""
+    big = max(1, per - 1)
+    return [
+        [['a', per, 1], ['a', per, 2], ['a', 1, 1], ['a', 1, 2], ['f', 0], ['f', 1], ['a', per, 2], ['a', per, 1]],
+        [['a', 1, 1], ['a', 1, 2], ['a', big, 1], ['a', big, 2], ['a', 1, 1], ['f', 2], ['f', 0], ['a', per, 1], ['a', 1, 2]],
+        [['a', per + 1, 1], ['a', per + 1, 2], ['a', per, 1], ['f', 2], ['f', 2], ['a', 1, 2], ['a', per, 1]],
+        [['a', 1, 2], ['a', 1, 1], ['a', 1, 2], ['a', 1, 1], ['f', 1], ['f', 0], ['a', 2, 1], ['a', 2, 2]],
+    ]
+
+
+def reg_histories(depth, per):
+    """all histories of `depth` calls by two clients: alloc 1 | 2 | per by client 1 or 2, free of the k-th result"""
+    out = []
+    ns = sorted({1, 2, per})
+
+    def rec(h, allocs):
+        if len(h) == depth:
+            out.append(list(h))
+            return
+        for w in (1, 2):
+            for n in ns:
+                h.append(['a', n, w])
+                rec(h, allocs + 1)
+                h.pop()
+        for k in range(allocs):
+            h.append(['f', k])
+            rec(h, allocs)
+            h.pop()
+    rec([], 0)
+    return out
+
+
+def reg_cases(thorough, via):
+    """(local option of client A, logins reported by the server (0 = none), id assigned to A) x a second client B with a
+    different local option and another id x the three spaces"""
+    cases = []
+    total = 24
+    for what in SPACES:
+        for l1 in (1, 2, 4, 8):
+            for rep in (0, 2, 4, 8):
+                eff = rep or l1
+                per = total // eff
+                for c1 in sorted({0, 1, eff - 1}):
+                    if c1 >= eff:
+                        continue
+                    servers = [dict(local=l1, client=c1)]
+                    if eff > 1:
+                        l2 = l1 if rep == 0 else {1: 4, 2: 8, 4: 1, 8: 2}[l1]
+                        servers.append(dict(local=l2, client=(c1 + 1) % eff))
+                    for h in reg_probes(per):
+                        if len(servers) == 1:
+                            h = [x for x in h if len(x) < 3 or x[2] == 1]
+                            h = [x for x in h if x[0] != 'f' or x[1] < sum(1 for y in h if y[0] == 'a')]
+                        cases.append(dict(kind='reg', what=what, total=total, reserved=1 if (l1 + c1) % 3 == 0 else 0,
+                                          reported=rep, via=via, servers=servers, hist=h, tiebreak='all'))
+    return cases
+
+
+def reg_exhaustive(thorough):
+    cases = []
+    cfgs = [(8, 4, 3, 1, 0), (4, 8, 1, 8, 6), (2, 0, 1, 2, 0)]
+    if thorough:
+        cfgs += [(1, 4, 0, 8, 3), (8, 2, 1, 4, 0), (4, 4, 2, 2, 1)]
+    for what in SPACES:
+        for l1, rep, c1, l2, c2 in cfgs:
+            eff = rep or l1
+            for h in reg_histories(4 if thorough else 3, 12 // eff):
+                cases.append(dict(kind='reg', what=what, total=12, reserved=0, reported=rep, via='handler',
+                                  servers=[dict(local=l1, client=c1), dict(local=l2, client=c2)], hist=h, tiebreak='all'))
+    return cases
 
 
 # ----------------------------------------------------------------------------- S->C replay
@@ -255,6 +341,9 @@ def run(ctx):
         failed = 'StepRefines' in str(e)
     if not failed:
         raise MachineryError('AllocImpl with the pinned _find_next refines Alloc: the refinement check is vacuous')
+    r = ctx.model_check('AllocClients', 'AllocClients%s.cfg' % sfx, require_cover=('Alloc1', 'Alloc2', 'Free1', 'Free2'), timeout=900,
+                        label='two clients of one server: (local option, reported logins, client id) enumerated')
+    ctx.expect_ok(r, 'AllocClients')
     r = ctx.model_check('NodeIds', 'NodeIds.cfg', require_cover=('Alloc',), timeout=600)
     ctx.expect_ok(r, 'NodeIds')
 
@@ -315,19 +404,26 @@ def run(ctx):
         cases.append(dict(kind='srv', what=rnd.choice(SPACES), client=client, logins=4, total=4 * per + rnd.randint(0, 3),
                           reserved=rnd.choice([0, 0, 1, 2]), tiebreak='random', seed=rnd.randrange(1 << 30),
                           hist=random_history(rnd, rnd.randint(20, 80), 5)))
+    # registration: the layout is the one the server reports; two clients of one server never overlap
+    nreg0 = len(cases)
+    cases += reg_cases(thorough, 'handler') + reg_exhaustive(thorough)
+    ctx.cov['registration_histories'] = len(cases) - nreg0
+    rt_cases = reg_cases(thorough, 'reply')          # same sweep through the '/done /notify' reply (RT interface)
+    ctx.cov['registration_histories_via_reply'] = len(rt_cases)
     # S->C: behaviours of the implementation-shaped model, replayed on the real allocator with TLC's tie-breaks
     nsim = 3000 if thorough else 300
     first_sim = len(cases)
     sim_cases, sim_exps = model_behaviours(ctx, nsim, 40)
     cases += sim_cases
     traces = run_cases(ctx, cases)
-    judge_alloc(ctx, cases, traces)
+    rt_traces = run_cases(ctx, rt_cases, mode='rt')
+    judge_alloc(ctx, [(cases, traces), (rt_cases, rt_traces)])
     compare_with_model(ctx, cases, traces, sim_exps, first_sim)
-    ctx.cov['evaluations'] += len(traces)
+    ctx.cov['evaluations'] += len(traces) + len(rt_traces)
     ctx.cov['exhaustive_depth'] = depth
-    ctx.cov['histories'] = len(cases)
+    ctx.cov['histories'] = len(cases) + len(rt_cases)
     ctx.cov['histories_exhaustive_families'] = nexh
-    ctx.cov['tiebreak_branches'] = len(traces) - len(cases)
+    ctx.cov['tiebreak_branches'] = len(traces) - len(cases) + len(rt_traces) - len(rt_cases)
     for t in traces:
         if t['points'] and len(t['ev']) <= 8:
             ctx.sample(dict(case=cases[t['case']], choices=t['choices'], observed=[[e['n'], e['x'], e['r']] for e in t['ev']]), limit=2)
@@ -347,7 +443,9 @@ def run(ctx):
                        'free of a failed alloc), free(None)} x every tie-break on raw ContiguousBlockAllocator(size,pos,addr_offset) '
                        'for sizes 4-8, pos 0-2, offsets 0/size/2*size/3*size; fill-then-fragment family (all sequences of %d '
                        'frees/re-allocs after filling with 1-blocks); all histories of up to %d calls through Server(client 0,1,3) '
-                       '-> AudioBus/ControlBus/Buffer(+new_consecutive); %d seeded random histories (20-120 calls, sizes 8-32, '
+                       '-> AudioBus/ControlBus/Buffer(+new_consecutive); registration sweep: local max_logins 1/2/4/8 x logins reported by '
+                       'the server none/2/4/8 x assigned ids 0,1,last x 3 spaces, two Server objects per layout, via the login handler '
+                       '(NRT) and via the /done /notify reply (RT), probing + all histories of 3(4) calls; %d seeded random histories (20-120 calls, sizes 8-32, '
                        'offsets 0/size/3*size/odd); %d simulated L2 behaviours replayed; node-id runs for clients {0,1,3,31,..} '
                        'with the counter at/near the top. non-trivial = a free followed later by an alloc (reuse path) resp. an '
                        'id run crossing the wrap; distinct by content incl. tie-break vector'
@@ -356,7 +454,8 @@ def run(ctx):
     ctx.assumptions += [
         'free() is exercised with addresses the allocator handed out earlier (live, already freed, never granted) and None; '
         'addresses outside the client space (which Python negative indexing would alias) are out of scope',
-        'client ids are set with Server._set_client_id (what the login reply does); no scsynth is involved',
+        'client ids are set with Server._set_client_id, with ServerStatusWatcher._handle_login_done(id, maxLogins) and through the '
+        '/done /notify reply fed to the OSC interface; no scsynth is involved',
         'reserve() (unused by sc3 itself) and the other allocator classes of _engine.py are not covered',
         'node ids: sequences of <= 40 ids; the window law is exercised by moving init_temp and the counter next to 2^26',
     ]
@@ -374,10 +473,10 @@ def replay(ctx, rp):
         if ch and ch[0] not in ('random', 'script'):
             # re-run exactly the recorded tie-break branch
             case['tiebreak'] = 'all'
-        tr = run_cases(ctx, [case])
+        tr = run_cases(ctx, [case], mode=rep.get('mode', 'nrt'))
         if ch and ch[0] not in ('random', 'script'):
             tr = [t for t in tr if t['choices'] == ch] or tr
-        judge_alloc(ctx, [case], tr)
+        judge_alloc(ctx, [([case], tr)])
         ctx.sample(dict(case=case, observed=tr[0]['ev']))
     ctx.cov['evaluations'] = len(tr)
 
